@@ -59,11 +59,16 @@ class Ids:
 
 
 def attr_to(a):
-    return {} if a == 0 else {'a': a}
+    # a nested mutable value rides along so that deep-copy isolation can be observed
+    return {} if a == 0 else {'a': a, 'nest': [a]}
 
 
 def attr_back(d):
-    return d.get('a', 0) if isinstance(d, dict) else -12345
+    if not isinstance(d, dict):
+        return -12345
+    if 'nest' in d and d['nest'] != [d.get('a')] and d.get('a') != 777:
+        return -777  # a nested value was mutated through another graph: shared structure
+    return d.get('a', 0)
 
 
 # ----------------------------------------------------------------------------------------------------------
@@ -96,6 +101,12 @@ def encode_op(op):
     if k == 'clear':
         _, r, kind = op
         return [4, r, 0 if kind == 'clear' else 1]
+    if k == 'poke':
+        return [5, op[1], op[2]]
+    if k == 'gattr':
+        return [6, op[1], op[2]]
+    if k == 'streamchk':
+        return [29, op[1]]
     if k == 'has':
         _, r, u, v, t = op
         return [10, r, u, v, *_o(t)]
@@ -172,8 +183,10 @@ def _npair(directed, u, v):
 def decode_res(op, ints, directed_of):
     """model answer (list of ints) -> canonical python value. directed_of(r) gives the class of register r."""
     k = op[0]
-    if k in ('new', 'addnode', 'clear'):
+    if k in ('new', 'addnode', 'clear', 'poke', 'gattr'):
         return None
+    if k == 'streamchk':
+        return (bool(ints[0]), bool(ints[1]))
     if k in ('add', 'bulk', 'slice', 'todir', 'toundir'):
         return OUTCOMES[ints[0]]
     if k in ('has', 'hasnode', 'isempty'):
@@ -351,6 +364,22 @@ class Impl:
             return 'NOREG'  # the register was never produced (its constructor raised): nothing to observe
         G = self.g(op[1])
         d = G.is_directed()
+        if k == 'poke':
+            n = I.to(op[2])
+            if n in G._node:
+                G._node[n].setdefault('nest', []).append(9)
+                G._node[n]['a'] = 777
+            G.graph.setdefault('nest', []).append(9)
+            G.graph['a'] = 777
+            return None
+        if k == 'gattr':
+            G.graph.update(attr_to(op[2]))
+            return None
+        if k == 'streamchk':
+            raw = list(G.stream_interactions())
+            ts = [x[3] for x in raw]
+            keys = [(x[3], _npair(d, I.back(x[0]), I.back(x[1])), x[2]) for x in raw]
+            return (all(a <= b for a, b in zip(ts, ts[1:])), len(set(keys)) == len(keys))
         if k == 'has':
             _, r, u, v, t = op
             return bool(G.has_interaction(I.to(u), I.to(v), t=t))
